@@ -3,7 +3,7 @@
    goroot_packages from the package clauses under GOROOT/src of the installed toolchain,
    gennames_table from the gennames tool built from /repo and run on that toolchain. *)
 From Jen Require Import Base.Bytes Model.Code Model.Naming Gen.Tables Gen.Goroot Gen.Gennames.
-From Jen Require Import Proofs.NamingProofs Proofs.StdProofs.
+From Jen Require Import Proofs.NamingProofs Proofs.StdProofs Spec.TableUses.
 
 (* Every entry of jennifer's hint table that names an importable package of the installed
    toolchain carries that package's declared name (checked by the kernel on the current
@@ -11,6 +11,24 @@ From Jen Require Import Proofs.NamingProofs Proofs.StdProofs.
 Theorem C18_table_true : forall p n real,
   In (p, n) std_hints -> alookup p goroot_packages = Some real -> n = real.
 Proof. intros p n real. exact (table_true_spec std_hints p n real std_hints_true). Qed.
+
+(* The hint table is used the way the model uses it (Spec/TableUses.v; read from the source on
+   every run): no init function, no assignment to / address of the table, nothing the
+   translator could not read (hints_problems = []); the name of an import that has no
+   registered name is chosen by exactly the three-armed chain expected_name_choice - the
+   user's hint if it has a name; else standardLibraryHints[path] if it is not "", with
+   alias = false; else guessAlias(path) with alias = true - standing in register itself or
+   in a helper that register calls once on its own path (link); and in the whole of package
+   jen (non-test files) `standardLibraryHints` occurs only as its declaration and in that
+   chain, `guessAlias` only as its declaration, in that chain and on NewFilePath's own
+   argument.  What register does with the chosen name afterwards (the numbering loop, the
+   prefix, the stored entry) is NOT read from the source: Tie A covers the data and these
+   uses, the algorithm is tied to the model by the differential run. *)
+Theorem C18_hints_tied :
+  hints_problems = [] /\ name_choice = expected_name_choice /\ link_ok name_choice_link = true /\
+  uses_within table_uses u_hints [r_decl; r_choice] /\ used_as table_uses u_hints r_choice /\
+  uses_within table_uses u_guess [r_decl; r_choice; r_pkgname] /\ used_as table_uses u_guess r_choice.
+Proof. exact hints_tied. Qed.
 
 (* The same guarantee for the table the gennames tool prints on this toolchain. *)
 Theorem C18_gennames_true : gennames_problems = [] /\ forall p n real,
